@@ -84,6 +84,9 @@ STRESS += [
     # that may be empty), and declarations cut short right behind a name
     "class Rq<int x>; multiclass MRq<int x> { def _a; } def q1 : Rq<>; def q2 : Rq< >; defm q3 : MRq<>; defvar q4 = Rq<>; class Q5 : Rq<> { Rq r = Rq<>; let r = Rq<>; }",
     "class Rq<int x, string y>; def e1 : Rq<>, Rq<1>, Rq<,>; def e2 : Rq<x = >; def e3 : Rq<1, y = >; class E4<> : Rq<>; def e5 : ; class E6 : { } let in def e7; foreach = in def e8;",
+    # doc comments whose lines are indented with different kinds of blanks (ASCII, no-break, ideographic, none), tabs and CR line ends
+    "// \u8aac\u660e\n//\u3000\u7d9a\u304d\n//\n//\u00a0see\n//\tt\nclass Foo;\n// one\r\n//  \u3000two\r\ndef d : Foo {\n  // width\n  //\n  //\u3000\u3000(0 = unknown)\n  int width = 0;\n}\n"
+    "//\u2028x\n// \u0085y\ndefset list<Foo> S = { }\ndefvar v = d.width;",
     "multiclass M { def a; } defm x : M, ; multiclass N { defm y : M, ; } class C<int x>; defm dm : M, C<1 = 2>;",
     "class A<int x, int y = 0>; def d : A<x = 1, x = 2>; def e : A<y = 1>; def f : A<1, 2, 3>;",
     "class Base { int v = 0; } class A : Base; class B : Base; class Z; def a : A; def b : B; def z : Z; defvar x = !if(1, a, b); defvar y = x.v; "
